@@ -332,7 +332,9 @@ Qed.
 Lemma run_request_is_spec strict lenient groups links filters api rs cols :
   fst (run_request strict lenient groups links filters api rs cols) = spec_request strict lenient groups filters api rs cols.
 Proof.
-  unfold run_request, spec_request. destruct (flatten api rs) as [us|]; [|reflexivity].
+  unfold run_request, spec_request. destruct (api_conflict api rs); [reflexivity|].
+  destruct (prepare_error groups api rs) as [o|]; [reflexivity|].
+  destruct (flatten api rs) as [us|]; [|reflexivity].
   destruct (collect groups links filters us) as [coll|] eqn:Hc.
   - assert (E : existsb (undeclarable groups) us = false).
     { destruct (existsb (undeclarable groups) us) eqn:E; [|reflexivity].
@@ -362,3 +364,31 @@ Proof.
     { unfold declared_type in Hd. destruct (nth_error groups (u_group u)) as [g|]; [exists g; reflexivity | discriminate]. }
     destruct Hg as (g & Hg). rewrite Hg, Hd. apply filter_In; split; [left; reflexivity | reflexivity].
 Qed.
+
+(* a request without prepare-time error flattens to user features that all have a resulting declaration (the remaining branches of
+   run_request / spec_request are never taken) *)
+Lemma prepare_ok_flatten groups api rs :
+  api_conflict api rs = false -> prepare_error groups api rs = None ->
+  exists us, flatten api rs = Some us /\ existsb (undeclarable groups) us = false.
+Proof.
+  induction rs as [|r t IH]; intros Ha Hp.
+  - exists []; split; reflexivity.
+  - unfold api_conflict in Ha. cbn [existsb] in Ha.
+    assert (Ha1 : (api && match r_own r with SFalse => true | _ => false end) = false).
+    { destruct api; [|reflexivity]. cbn in Ha |- *. apply orb_false_iff in Ha as [H _]; exact H. }
+    assert (Ha2 : api_conflict api t = false).
+    { unfold api_conflict. destruct api; [|reflexivity]. cbn in Ha |- *. apply orb_false_iff in Ha as [_ H]; exact H. }
+    cbn [prepare_error] in Hp. cbn [flatten]. rewrite Ha1.
+    set (e0 := propagate_strict api (r_decl r) (r_own r)) in *.
+    destruct (undeclarable groups {| u_group := r_group r; u_name := r_name r; u_decl := r_decl r; u_strict := e0 |}) eqn:Hu; [discriminate|].
+    destruct (flatten_deps e0 (r_deps r)) as [ds|]; [|discriminate].
+    destruct (existsb (undeclarable groups) ds) eqn:Hd; [discriminate|].
+    destruct (IH Ha2 Hp) as (rest & -> & Hr).
+    eexists; split; [reflexivity|]. cbn [existsb]. rewrite Hu, existsb_app, Hd, Hr. reflexivity.
+Qed.
+
+Definition wit_rs_one_type : list rfeat :=
+  [ {| r_group := 2; r_name := "score"; r_decl := Some DOUBLE; r_own := SAbsent;
+       r_deps := [ {| d_group := 0; d_name := "a"; d_decl := Some INT64; d_own := SAbsent |};
+                   {| d_group := 0; d_name := "b"; d_decl := None; d_own := SAbsent |};
+                   {| d_group := 1; d_name := "c"; d_decl := Some DOUBLE; d_own := SAbsent |} ] |} ].
